@@ -21,7 +21,7 @@ def scenario(rng):
     coro = rng.choice([0.0, 0.0, 0.0, 0.5, 1.0])
     scn = gen.rand_engine_scenario(
         rng, nested=1.0, fail=0.0, dense=rng.choice([0.5, 0.9]), guards=False, validators=False,
-        coro=coro, yields=1, nsends=rng.randint(1, 5), unknown=(), events=EVS,
+        coro=coro, yields=1, nsends=rng.randint(1, 5), unknown=(), events=EVS, evcb_p=rng.choice([0.0, 0.4]),
         provs=rng.choice([["sm"], ["sm", "model"], ["sm", "l1"]]), allow=True)
     d = scn["classes"][0]
     if any(cb["coro"] for cb in d["cbs"]):
